@@ -17,5 +17,6 @@ GotLen == [o \in DOMAIN Got |-> chunks[Got[o]].len]
 Segs == MissSegments(GotLen, size)
 Exact == MissExact(Segs, GotLen, size)
 CompleteIffNone == (Segs = <<>>) <=> Complete(GotLen, size)
+IntervalsAgree == Mat(MissIntervals(chunks, size)) = Mat(Segs)        \* the interval form used for large files is the same function
 Emit == CSVWrite("%1$s", <<ToJson([size |-> size, chunks |-> chunks, segs |-> Segs])>>, IOEnv.VERIF_OUT)
 =============================================================================
